@@ -39,6 +39,19 @@ def gen_body(rng, boundary):
     }[kind]
     if kind == "dehyphenated" and ("-" not in boundary.strip("-") or not deh):
         kind, body = "text", b"plain value"
+    if kind == "text" and rng.chance(1, 2):
+        # lines that resemble the delimiter without containing the boundary: other letter case, one character short / changed
+        alt = None
+        if boundary.swapcase() != boundary and boundary.lower() != boundary.upper():
+            alt = rng.choice([boundary.swapcase(), boundary.upper() if boundary.upper() != boundary else boundary.lower(), boundary.lower() if boundary.lower() != boundary else boundary.upper()])
+        if alt and alt != boundary and boundary not in alt:
+            lines = [b"line one", b"--" + alt.encode(), alt.encode(), b"--" + alt.encode() + b"--", b"last line"]
+            kind, body = "case-variant-of-boundary", b"\r\n".join(lines)
+        elif len(boundary) > 3:
+            short = boundary[:-1]
+            changed = boundary[:-1] + ("x" if boundary[-1] != "x" else "y")
+            if boundary not in short and boundary not in changed:
+                kind, body = "near-boundary-lines", b"\r\n".join([b"first", b"--" + short.encode(), b"--" + changed.encode(), b"--" + changed.encode() + b"--", b"end"])
     return kind, body
 
 
@@ -59,6 +72,11 @@ def gen_parts(rng, boundary):
             hs.append(("X-" + text.token(rng), text.printable(rng, 1, 20, weights=(8, 1, 1)).strip() or "v"))
         if rng.chance(1, 10):
             hs.append((rng.choice(["Content-Description", "X-Empty"]), ""))   # a header may have an empty value
+        if rng.chance(1, 8):
+            # header names are written as given: other letter cases must come back as they were sent
+            hs = [((k.lower() if rng.chance(1, 2) else k.upper()) if k.lower().startswith("content-") else k, v) for k, v in hs]
+            if rng.chance(1, 2):
+                hs.append((rng.choice(["content-length", "CONTENT-TRANSFER-ENCODING", "content-id", "Content-language"]), rng.choice(["3", "binary", "<a@b>", "en"])))
         kind, body = gen_body(rng, boundary)
         parts.append({"headers": hs[:4], "body": body, "kind": kind})
     return parts
